@@ -56,7 +56,7 @@ PROPS['C17'] = {
 }
 PROPS['C10'] = {
     'level': 'proof',
-    'vx': [{'unit': 'parse', 'functions': ['next', "Message<'a> :: from_bytes", 'RawAttribute', 'padded']}],
+    'vx': [{'unit': 'parse', 'functions': ['next', "Message<'a> :: from_bytes", 'RawAttribute', 'padded']}, {'unit': 'integrity', 'functions': ['validate_integrity']}],
     'bx': ['c10'],
     'rule': 'Verus verification conditions of unit parse (iterator contract against the exposed-stream spec).',
     'proved': ['MessageAttributesIter::next yields exactly exposed_from(bytes, 20, 0): everything up to and including the first integrity attribute, MI-SHA256 directly after MI, FINGERPRINT; hidden attributes are skipped',
@@ -75,10 +75,11 @@ PROPS['C09'] = {
 }
 PROPS['C01'] = {
     'level': 'proof',
-    'vx': [{'unit': 'parse'}],
+    'vx': [{'unit': 'parse'}, {'unit': 'integrity'}],
     'bx': ['c01'],
     'rule': 'Verus exec-mode VCs (index, slice, arithmetic overflow, unwrap, unreached, termination) of every extracted decoding function with precondition true on the bytes.',
-    'proved': ['no panic / overflow / OOB / non-termination for AttributeHeader::parse, RawAttribute::from_bytes, MessageType::from_bytes, MessageHeader::from_bytes, Message::from_bytes, MessageAttributesIter::next for every byte string'],
+    'proved': ['no panic / overflow / OOB / non-termination for AttributeHeader::parse, RawAttribute::from_bytes, MessageType::from_bytes, MessageHeader::from_bytes, Message::from_bytes, MessageAttributesIter::next for every byte string',
+               'Message::validate_integrity on every accepted message and every credentials value: the 16-bit offset arithmetic cannot overflow, slices are in bounds, try_into().unwrap() is on a 20-byte slice, unreachable!() is unreachable, the scan terminates; MessageIntegrity / MessageIntegritySha256 / check_type_and_len decoders total'],
     'bounded': ['check_attribute_types, Display/Debug, tracing argument expressions: BX only'],
     'trusted': _PARSE_TRUST,
 }
@@ -123,6 +124,7 @@ PROPS['C16'] = {
 }
 PROPS['C08'] = {
     'level': 'exploration',
+    'vx': [{'unit': 'integrity', 'functions': ['try_from', 'check_type_and_len', 'hmac']}],
     'kx': _ATTR_K,
     'bx': ['c08'],
     'rule': 'Kani complete harnesses for the ten fixed-size attribute types (symbolic type code, 0..=40 symbolic value bytes); BX for the nine variable-length types.',
@@ -236,12 +238,15 @@ PROPS['C11'] = {
     'trusted': _BX_TRUST,
 }
 PROPS['C04'] = {
-    'level': 'exploration',
-    'vx': [{'unit': 'parse', 'functions': ["Message<'a> :: from_bytes", 'next']}],
+    'level': 'proof',
+    'vx': [{'unit': 'integrity'}, {'unit': 'parse', 'functions': ["Message<'a> :: from_bytes", 'next']}],
     'bx': ['c04'],
     'rule': 'see engines.bx[0].rule',
-    'proved': ['(unit parse) every accepted buffer is tiled by TLVs and the iterator exposes the integrity attributes per the C10 rule - the structural half of "which attribute is checked"'],
-    'bounded': ['validate_integrity verdicts, HMAC input (prefix with rewritten length), key derivation, tamper evidence, truncated SHA-256: BX against independent HMAC-SHA1/SHA256/MD5'],
+    'proved': ['(unit integrity) Message::validate_integrity on every accepted message: no exposed integrity attribute => Err(MissingAttribute); an exposed MESSAGE-INTEGRITY-SHA256 is the attribute checked and Ok(Sha256) <=> its length is 16..32 step 4 and its value == HMAC-SHA256(key, message prefix with the length field set to the end of the attribute) truncated; otherwise Ok(Sha1) <=> the exposed MESSAGE-INTEGRITY is 20 bytes == HMAC-SHA1(key, prefix with rewritten length); the unreachable!() after the scan is unreachable; no overflow in the 16-bit length arithmetic',
+               'MessageIntegrity / MessageIntegritySha256 decoders accept exactly (type, length) per RFC and expose the value bytes',
+               '(unit parse) every accepted buffer is tiled by TLVs and the iterator exposes the integrity attributes per the C10 rule'],
+    'bounded': ['raw_attribute (iterator adaptor find) returns the first exposed attribute of the type: assumed in VX, checked by BX (C02:lookup-first-match)',
+                'key derivation make_hmac_key (password / MD5(user:realm:password)), agreement of the hmac/sha crates with RFC 2104, tamper evidence on concrete messages, builder-side sealing: BX against independent HMAC-SHA1/SHA256/MD5'],
     'trusted': _BX_TRUST + ['hmac / sha1 / sha2 / md-5 crates (their agreement with the independent implementations is checked on every BX case, not proved)'],
 }
 for _p in ('C01', 'C02', 'C05', 'C06', 'C07', 'C08', 'C09', 'C10', 'C12', 'C13', 'C14', 'C15', 'C16', 'C17', 'C18', 'C19', 'C20'):
